@@ -1025,4 +1025,635 @@ theorem sortedPeriods_ok {buf : Buffer} {v : String} {ps : List Period} (h : sor
   · cases h
   · rename_i qs hq; cases h; exact ⟨qs, hq, rfl⟩
 
+
+/-! ## documents that differ only in the spelling of period keys -/
+
+/-- two `(period key, value)` pairs: keys denoting the same period, same value -/
+def PairEq (a b : DKey × Doc) : Prop := parseKey a.1 = parseKey b.1 ∧ a.2 = b.2
+
+/-- what a document gives for one variable of one instance -/
+def VarDocEq (a b : Doc) : Prop :=
+  a = b ∨ ∃ kvs kvs', a = .obj kvs ∧ b = .obj kvs' ∧ All₂ PairEq kvs kvs'
+
+/-- an entry `name: …` of an instance (a variable, or a role: role entries are not objects) -/
+def EntryEq (a b : DKey × Doc) : Prop := a.1 = b.1 ∧ VarDocEq a.2 b.2
+
+/-- an instance -/
+def InstEq (a b : Doc) : Prop :=
+  a = b ∨ ∃ kvs kvs', a = .obj kvs ∧ b = .obj kvs' ∧ All₂ EntryEq kvs kvs'
+
+def InstEntryEq (a b : DKey × Doc) : Prop := a.1 = b.1 ∧ InstEq a.2 b.2
+
+/-- all the instances of one entity -/
+def EntEq (a b : Doc) : Prop :=
+  a = b ∨ ∃ kvs kvs', a = .obj kvs ∧ b = .obj kvs' ∧ All₂ InstEntryEq kvs kvs'
+
+/-- the top level of a fully specified document (the `axes` entry is not respelt here) -/
+def TopEq (a b : DKey × Doc) : Prop := a.1 = b.1 ∧ EntEq a.2 b.2
+
+theorem canonKey_congr {k k' : DKey} (h : parseKey k = parseKey k') : canonKey k = canonKey k' := by
+  unfold canonKey; rw [h]
+
+theorem valueWrite_congr (var : Var) (size idx : Nat) (a b : DKey × Doc) (h : PairEq a b) :
+    valueWrite var size idx a = valueWrite var size idx b := by
+  unfold valueWrite
+  rw [canonKey_congr h.1, h.2]
+
+theorem PairEq.refl (a : DKey × Doc) : PairEq a a := ⟨rfl, rfl⟩
+theorem VarDocEq.refl (a : Doc) : VarDocEq a a := Or.inl rfl
+theorem EntryEq.refl (a : DKey × Doc) : EntryEq a a := ⟨rfl, Or.inl rfl⟩
+theorem InstEq.refl (a : Doc) : InstEq a a := Or.inl rfl
+theorem InstEntryEq.refl (a : DKey × Doc) : InstEntryEq a a := ⟨rfl, Or.inl rfl⟩
+theorem EntEq.refl (a : Doc) : EntEq a a := Or.inl rfl
+
+theorem variableWrites_congr (sys : Sys) (entKey : String) (dp : Option String) (size idx : Nat)
+    (a b : DKey × Doc) (h : EntryEq a b) :
+    variableWrites sys entKey dp size idx a = variableWrites sys entKey dp size idx b := by
+  obtain ⟨hk, hv⟩ := h
+  rcases hv with e | ⟨kvs, kvs', ea, eb, hall⟩
+  · have : a = b := Prod.ext hk e
+    rw [this]
+  · unfold variableWrites
+    rw [hk]
+    cases sys.var? b.1.text with
+    | none => rfl
+    | some var =>
+      simp only
+      split
+      · rfl
+      · rw [ea, eb]
+        simp only [variablePairs, Doc.asObj?]
+        rw [mapE_congr _ _ PairEq (valueWrite_congr var size idx) kvs kvs' hall]
+
+theorem instanceWrites_congr (sys : Sys) (entKey : String) (dp : Option String) (ids : List String)
+    (id : String) (vars vars' : List (DKey × Doc)) (h : All₂ EntryEq vars vars') :
+    instanceWrites sys entKey dp ids id vars = instanceWrites sys entKey dp ids id vars' := by
+  unfold instanceWrites
+  rw [mapE_congr _ _ EntryEq (variableWrites_congr sys entKey dp ids.length (ids.idxOf id)) vars vars' h]
+
+theorem personInstance_congr (sys : Sys) (dp : Option String) (ids : List String)
+    (a b : DKey × Doc) (h : InstEntryEq a b) : personInstance sys dp ids a = personInstance sys dp ids b := by
+  obtain ⟨hk, hv⟩ := h
+  rcases hv with e | ⟨kvs, kvs', ea, eb, hall⟩
+  · have : a = b := Prod.ext hk e
+    rw [this]
+  · unfold personInstance
+    rw [ea, eb, hk]
+    simp only [Doc.asObj?]
+    exact instanceWrites_congr sys _ dp ids _ kvs kvs' hall
+
+theorem all₂_map_key {Rel : DKey × Doc → DKey × Doc → Prop} (hk : ∀ a b, Rel a b → a.1 = b.1)
+    {l l' : List (DKey × Doc)} (h : All₂ Rel l l') :
+    l.map (fun kv => kv.1.text) = l'.map (fun kv => kv.1.text) := by
+  induction h with
+  | nil => rfl
+  | cons hab _ ih => simp [hk _ _ hab, ih]
+
+theorem addPersonEntity_congr (sys : Sys) (dp : Option String) (a b : Doc) (h : EntEq a b) :
+    addPersonEntity sys dp a = addPersonEntity sys dp b := by
+  rcases h with e | ⟨kvs, kvs', ea, eb, hall⟩
+  · rw [e]
+  · unfold addPersonEntity
+    rw [ea, eb]
+    simp only [Doc.asObj?]
+    rw [all₂_map_key (fun _ _ h => h.1) hall,
+      mapE_congr _ _ InstEntryEq (personInstance_congr sys dp _) kvs kvs' hall]
+
+
+/-- role entries are read through `asArr?` only -/
+def RdEq (rd rd' : Role × Doc) : Prop := rd.1 = rd'.1 ∧ rd.2.asArr? = rd'.2.asArr?
+
+theorem lookupS_rel {l l' : List (DKey × Doc)} (h : All₂ EntryEq l l') (k : String) :
+    (lookupS k l = none ∧ lookupS k l' = none) ∨
+    ∃ d d', lookupS k l = some d ∧ lookupS k l' = some d' ∧ VarDocEq d d' := by
+  induction h with
+  | nil => exact Or.inl ⟨rfl, rfl⟩
+  | @cons a b l l' hab _ ih =>
+    obtain ⟨ka, va⟩ := a
+    obtain ⟨kb, vb⟩ := b
+    obtain ⟨hk, hv⟩ := hab
+    simp only at hk hv
+    subst hk
+    simp only [lookupS]
+    by_cases e : ka = DKey.s k
+    · simp only [e, if_true]; exact Or.inr ⟨va, vb, rfl, rfl, hv⟩
+    · simp only [e, if_false]; exact ih
+
+theorem strictSyntax_asArr_congr {d d' : Doc} (h : VarDocEq d d') :
+    (strictSyntax d).asArr? = (strictSyntax d').asArr? := by
+  rcases h with e | ⟨kvs, kvs', ea, eb, _⟩
+  · rw [e]
+  · rw [ea, eb]; rfl
+
+theorem roleDocs_rel (g : GroupKind) {l l' : List (DKey × Doc)} (h : All₂ EntryEq l l') :
+    All₂ RdEq (roleDocs g l) (roleDocs g l') := by
+  unfold roleDocs
+  induction g.roles with
+  | nil => exact .nil
+  | cons r rs ih =>
+    simp only [List.map_cons]
+    refine .cons ⟨rfl, ?_⟩ ih
+    simp only
+    rcases lookupS_rel h r.docKey with ⟨e1, e2⟩ | ⟨d, d', e1, e2, hv⟩
+    · rw [e1, e2]
+    · rw [e1, e2]; exact strictSyntax_asArr_congr hv
+
+theorem allocRole_congr (personsIds ta : List String) (rd rd' : Role × Doc) (h : RdEq rd rd') :
+    allocRole personsIds ta rd = allocRole personsIds ta rd' := by
+  unfold allocRole; rw [h.2]
+
+theorem maxOk_congr (rd rd' : Role × Doc) (h : RdEq rd rd') : maxOk rd = maxOk rd' := by
+  unfold maxOk; rw [h.1, h.2]
+
+theorem roleMWrites_congr (personsIds : List String) (gidx : Nat) (rd rd' : Role × Doc) (h : RdEq rd rd') :
+    roleMWrites personsIds gidx rd = roleMWrites personsIds gidx rd' := by
+  unfold roleMWrites Doc.strs; rw [h.1, h.2]
+
+theorem all₂_all_congr {α : Type} {Rel : α → α → Prop} (f : α → Bool) (hf : ∀ a b, Rel a b → f a = f b)
+    {l l' : List α} (h : All₂ Rel l l') : l.all f = l'.all f := by
+  induction h with
+  | nil => rfl
+  | cons hab _ ih => simp [List.all_cons, hf _ _ hab, ih]
+
+theorem all₂_flatMap_congr {α β : Type} {Rel : α → α → Prop} (f : α → List β) (hf : ∀ a b, Rel a b → f a = f b)
+    {l l' : List α} (h : All₂ Rel l l') : l.flatMap f = l'.flatMap f := by
+  induction h with
+  | nil => rfl
+  | cons hab _ ih => simp [List.flatMap_cons, hf _ _ hab, ih]
+
+theorem all₂_filter_key {Rel : DKey × Doc → DKey × Doc → Prop} (hk : ∀ a b, Rel a b → a.1 = b.1)
+    (f : DKey → Bool) {l l' : List (DKey × Doc)} (h : All₂ Rel l l') :
+    All₂ Rel (l.filter (fun kv => f kv.1)) (l'.filter (fun kv => f kv.1)) := by
+  induction h with
+  | nil => exact .nil
+  | @cons a b l l' hab _ ih =>
+    simp only [List.filter_cons, hk _ _ hab]
+    cases f b.1 with
+    | true => exact .cons hab ih
+    | false => exact ih
+
+theorem variablesJson_rel (g : GroupKind) {l l' : List (DKey × Doc)} (h : All₂ EntryEq l l') :
+    All₂ EntryEq (variablesJson g l) (variablesJson g l') := by
+  unfold variablesJson
+  exact all₂_filter_key (fun _ _ h => h.1) (fun k => !(g.roles.map (fun r => DKey.s r.docKey)).contains k) h
+
+theorem groupStep_congr (sys : Sys) (dp : Option String) (g : GroupKind) (personsIds gids : List String)
+    (acc : GAcc) (a b : DKey × Doc) (h : InstEntryEq a b) :
+    groupStep sys dp g personsIds gids acc a = groupStep sys dp g personsIds gids acc b := by
+  obtain ⟨hk, hv⟩ := h
+  rcases hv with e | ⟨kvs, kvs', ea, eb, hall⟩
+  · have : a = b := Prod.ext hk e
+    rw [this]
+  · unfold groupStep
+    rw [ea, eb, hk]
+    simp only [Doc.asObj?]
+    have hrd := roleDocs_rel g hall
+    rw [foldE_congr _ _ RdEq (fun s x y hxy => allocRole_congr personsIds s x y hxy) _ _ acc.toAlloc hrd,
+      all₂_all_congr maxOk maxOk_congr hrd,
+      all₂_flatMap_congr _ (roleMWrites_congr personsIds (gids.idxOf b.1.text)) hrd,
+      instanceWrites_congr sys g.key dp gids b.1.text _ _ (variablesJson_rel g hall)]
+
+theorem addGroupEntity_congr (sys : Sys) (dp : Option String) (g : GroupKind) (personsIds : List String)
+    (a b : Doc) (buf : Buffer) (h : EntEq a b) :
+    addGroupEntity sys dp g personsIds a buf = addGroupEntity sys dp g personsIds b buf := by
+  rcases h with e | ⟨kvs, kvs', ea, eb, hall⟩
+  · rw [e]
+  · unfold addGroupEntity
+    rw [ea, eb]
+    simp only [Doc.asObj?]
+    rw [all₂_map_key (fun _ _ h => h.1) hall,
+      foldE_congr _ _ InstEntryEq (fun s x y hxy => groupStep_congr sys dp g personsIds _ s x y hxy) kvs kvs' _ hall]
+
+theorem EntEq.isNull {a b : Doc} (h : EntEq a b) : a.isNull = b.isNull := by
+  rcases h with e | ⟨kvs, kvs', ea, eb, _⟩
+  · rw [e]
+  · rw [ea, eb]; rfl
+
+theorem EntEq.truthy {a b : Doc} (h : EntEq a b) : a.truthy = b.truthy := by
+  rcases h with e | ⟨kvs, kvs', ea, eb, hall⟩
+  · rw [e]
+  · rw [ea, eb]
+    simp only [Doc.truthy]
+    cases hall with
+    | nil => rfl
+    | cons _ _ => rfl
+
+theorem lookupS_top_rel {l l' : List (DKey × Doc)} (h : All₂ TopEq l l') (k : String) :
+    (lookupS k l = none ∧ lookupS k l' = none) ∨
+    ∃ d d', lookupS k l = some d ∧ lookupS k l' = some d' ∧ EntEq d d' := by
+  induction h with
+  | nil => exact Or.inl ⟨rfl, rfl⟩
+  | @cons a b l l' hab _ ih =>
+    obtain ⟨ka, va⟩ := a
+    obtain ⟨kb, vb⟩ := b
+    obtain ⟨hk, hv⟩ := hab
+    simp only at hk hv
+    subst hk
+    simp only [lookupS]
+    by_cases e : ka = DKey.s k
+    · simp only [e, if_true]; exact Or.inr ⟨va, vb, rfl, rfl, hv⟩
+    · simp only [e, if_false]; exact ih
+
+theorem groupsStep_congr (sys : Sys) (dp : Option String) (params params' : List (DKey × Doc))
+    (h : All₂ TopEq params params') (hasAxes : Bool) (personsIds : List String) (st : BState) (g : GroupKind) :
+    groupsStep sys dp params hasAxes personsIds st g = groupsStep sys dp params' hasAxes personsIds st g := by
+  unfold groupsStep getEntityDoc
+  rcases lookupS_top_rel h g.plural with ⟨e1, e2⟩ | ⟨d, d', e1, e2, hv⟩
+  · rw [e1, e2]
+  · rw [e1, e2]
+    simp only [hv.isNull]
+    cases d'.isNull with
+    | true => rfl
+    | false =>
+      simp only [Bool.false_eq_true, if_false]
+      rw [addGroupEntity_congr sys dp g personsIds d d' st.buf hv]
+
+theorem all₂_any_key {Rel : DKey × Doc → DKey × Doc → Prop} (hk : ∀ a b, Rel a b → a.1 = b.1)
+    (f : DKey → Bool) {l l' : List (DKey × Doc)} (h : All₂ Rel l l') :
+    l.any (fun kv => f kv.1) = l'.any (fun kv => f kv.1) := by
+  induction h with
+  | nil => rfl
+  | cons hab _ ih => simp [List.any_cons, hk _ _ hab, ih]
+
+theorem foldE_ext {α σ : Type} (f g : σ → α → R σ) (h : ∀ s x, f s x = g s x) (s : σ) (l : List α) :
+    foldE f s l = foldE g s l :=
+  foldE_congr f g Eq (fun s x y e => by rw [e]; exact h s y) l l s (All₂.refl (fun _ => rfl) l)
+
+/-- the entity phase does not see how period keys are spelt -/
+theorem buildEntities_congr (sys : Sys) (dp : Option String) (params params' : List (DKey × Doc))
+    (h : All₂ TopEq params params') (hasAxes : Bool) :
+    buildEntities sys dp params hasAxes = buildEntities sys dp params' hasAxes := by
+  unfold buildEntities
+  rw [all₂_any_key (fun _ _ h => h.1) (unexpectedKey sys) h]
+  split
+  · rfl
+  · rcases lookupS_top_rel h sys.personPlural with ⟨e1, e2⟩ | ⟨d, d', e1, e2, hv⟩
+    · rw [e1, e2]
+    · rw [e1, e2]
+      simp only [hv.truthy, addPersonEntity_congr sys dp d d' hv]
+      split
+      · rfl
+      · split
+        · rfl
+        · rename_i pids pws _
+          exact foldE_ext _ _ (fun s x => groupsStep_congr sys dp params params' h hasAxes pids s x) _ _
+
+
+theorem parseAxes_congr {a b : Doc} (h : EntEq a b) : parseAxes a = parseAxes b := by
+  rcases h with e | ⟨kvs, kvs', ea, eb, _⟩
+  · rw [e]
+  · rw [ea, eb]; rfl
+
+/-- `build_from_entities` does not see how the period keys of the entities are spelt -/
+theorem buildFromEntities_congr (sys : Sys) (dp : Option String) (si : SetInput)
+    (kvs kvs' : List (DKey × Doc)) (h : All₂ TopEq kvs kvs') :
+    buildFromEntities sys dp si kvs = buildFromEntities sys dp si kvs' := by
+  unfold buildFromEntities
+  have hp := all₂_filter_key (Rel := TopEq) (fun _ _ h => h.1) (fun k => !isAxesKey k) h
+  simp only
+  unfold getEntityDoc
+  rcases lookupS_top_rel h "axes" with ⟨e1, e2⟩ | ⟨d, d', e1, e2, hv⟩
+  · rw [e1, e2, buildEntities_congr sys dp _ _ hp]
+  · rw [e1, e2]
+    simp only [hv.isNull]
+    cases d'.isNull with
+    | true =>
+      simp only [if_true]
+      rw [buildEntities_congr sys dp _ _ hp]
+    | false =>
+      simp only [Bool.false_eq_true, if_false, Option.isSome_some]
+      rw [buildEntities_congr sys dp _ _ hp, parseAxes_congr hv]
+
+/-- the variables-only form: `Simulation.set_input(name, key, value)` reads the key through
+`parseKey` only -/
+theorem setInputDoc_congr (sys : Sys) (si : SetInput) (count : Nat) (store : Store) (name k k' : DKey)
+    (value : Doc) (h : parseKey k = parseKey k') :
+    setInputDoc sys si count store name k value = setInputDoc sys si count store name k' value := by
+  unfold setInputDoc; rw [h]
+
+/-- one axis: the period is read through `parseKey` only -/
+theorem layAxis_congr (sys : Sys) (dp : Option String) (entKey : String) (step cell cnt : Nat) (multi : Bool)
+    (coords : List Nat) (buf : Buffer) (a : Axis) (k k' : DKey) (h : parseKey k = parseKey k') :
+    layAxis sys dp entKey step cell cnt multi coords buf { a with period := some k } =
+    layAxis sys dp entKey step cell cnt multi coords buf { a with period := some k' } := by
+  unfold layAxis axisKey
+  have hv : ∀ c, axisValue { a with period := some k } cnt c = axisValue { a with period := some k' } cnt c :=
+    fun c => rfl
+  simp only [canonKey_congr h, hv]
+
+
+/-! ## axes: replication is concatenation of copies -/
+
+/-- `cell` copies, the `c`-th being `f c` -/
+def copies {α : Type} (cell : Nat) (f : Nat → List α) : List α := (List.range cell).flatMap f
+
+theorem copies_succ {α : Type} (cell : Nat) (f : Nat → List α) :
+    copies (cell + 1) f = copies cell f ++ f cell := by
+  unfold copies
+  rw [List.range_succ, List.flatMap_append]
+  simp
+
+theorem copies_length {α : Type} (f : Nat → List α) (step : Nat) (hf : ∀ c, (f c).length = step) :
+    ∀ cell, (copies cell f).length = cell * step
+  | 0 => by simp [copies]
+  | c + 1 => by rw [copies_succ, List.length_append, copies_length f step hf c, hf, Nat.succ_mul]
+
+theorem tile_eq_copies {α : Type} (xs : List α) : ∀ cell, tile cell xs = copies cell (fun _ => xs)
+  | 0 => rfl
+  | c + 1 => by
+    rw [copies_succ, ← tile_eq_copies xs c]
+    unfold tile
+    rw [List.replicate_succ', List.flatten_append]
+    simp
+
+theorem getElem?_copies {α : Type} (f : Nat → List α) (step : Nat) (hstep : 0 < step)
+    (hf : ∀ c, (f c).length = step) : ∀ (cell j : Nat),
+    (copies cell f)[j]? = if j < cell * step then (f (j / step))[j % step]? else none
+  | 0, j => by simp [copies]
+  | c + 1, j => by
+    rw [copies_succ, List.getElem?_append, copies_length f step hf c, getElem?_copies f step hstep hf c j]
+    have hdm := Nat.div_add_mod j step
+    by_cases h1 : j < c * step
+    · have h2 : j < (c + 1) * step := by rw [Nat.succ_mul]; omega
+      simp [h1, h2]
+    · simp only [h1, if_false]
+      by_cases h2 : j < (c + 1) * step
+      · have hdiv : j / step = c := Nat.div_eq_of_lt_le (by omega) h2
+        have hmod : j % step = j - c * step := by
+          rw [hdiv, Nat.mul_comm] at hdm; omega
+        simp [h2, hdiv, hmod]
+      · simp only [h2, if_false]
+        apply List.getElem?_eq_none
+        rw [hf, Nat.succ_mul] at *
+        omega
+
+/-- `idx ≤ j ∧ (j - idx) % step = 0` says that `j` is the `idx`-th slot of its copy -/
+theorem hit_iff (idx step j : Nat) (hi : idx < step) :
+    (idx ≤ j ∧ (j - idx) % step = 0) ↔ j % step = idx := by
+  have hdm := Nat.div_add_mod j step
+  constructor
+  · intro ⟨hle, hm⟩
+    have h2 := Nat.div_add_mod (j - idx) step
+    rw [hm] at h2
+    have : j = step * ((j - idx) / step) + idx := by omega
+    rw [this, Nat.mul_add_mod, Nat.mod_eq_of_lt hi]
+  · intro hm
+    refine ⟨by omega, ?_⟩
+    have : j - idx = step * (j / step) := by omega
+    rw [this, Nat.mul_mod_right]
+
+theorem hit_div (idx step j : Nat) (hi : idx < step) (hm : j % step = idx) : (j - idx) / step = j / step := by
+  have hdm := Nat.div_add_mod j step
+  have : j - idx = step * (j / step) := by omega
+  rw [this, Nat.mul_div_cancel_left _ (by omega : 0 < step)]
+
+/-- **the stride assignment on a replicated array lays one value on the indexed slot of every
+copy** (when numpy accepts the assignment) -/
+theorem strideSet_copies (proto vals arr' : Vec) (idx step cell : Nat) (hp : proto.length = step)
+    (hi : idx < step) (h : strideSet (tile cell proto) idx step vals = .ok arr') :
+    arr' = copies cell (fun c => proto.set idx (vals.getD c (proto.getD idx default))) := by
+  have hstep : 0 < step := by omega
+  unfold strideSet at h
+  simp only at h
+  split at h
+  · cases h
+  · split at h
+    · split at h <;> cases h
+    · cases h
+      apply List.ext_getElem?
+      intro j
+      rw [List.getElem?_map, List.getElem?_zipIdx, tile_eq_copies,
+        getElem?_copies (fun _ => proto) step hstep (fun _ => hp) cell j,
+        getElem?_copies _ step hstep (fun c => by simp [hp]) cell j]
+      by_cases hj : j < cell * step
+      · simp only [hj, if_true, Nat.zero_add]
+        have hml : j % step < proto.length := by rw [hp]; exact Nat.mod_lt _ hstep
+        rw [List.getElem?_eq_getElem hml]
+        simp only [Option.map_some]
+        by_cases hm : j % step = idx
+        · have hhit : (decide (idx ≤ j) && (j - idx) % step == 0) = true := by
+            have := (hit_iff idx step j hi).mpr hm
+            simp [this.1, this.2]
+          simp only [hhit, if_true, hit_div idx step j hi hm]
+          rw [List.getElem?_set, if_pos hm.symm, if_pos (by omega)]
+          congr 2
+          simp only [hm]
+          rw [List.getD_eq_getElem?_getD, List.getElem?_eq_getElem (by omega)]
+          rfl
+        · have hhit : (decide (idx ≤ j) && (j - idx) % step == 0) = false := by
+            cases hc : (decide (idx ≤ j) && (j - idx) % step == 0) with
+            | false => rfl
+            | true =>
+              simp only [Bool.and_eq_true, decide_eq_true_eq, beq_iff_eq] at hc
+              exact absurd ((hit_iff idx step j hi).mp hc) hm
+          simp only [hhit, Bool.false_eq_true, if_false]
+          rw [List.getElem?_set_ne (fun e => hm e.symm), List.getElem?_eq_getElem hml]
+      · simp [hj]
+
+theorem zipWith_add_replicate (m : List Nat) (k : Nat) :
+    List.zipWith (· + ·) m (List.replicate m.length k) = m.map (· + k) := by
+  induction m with
+  | nil => rfl
+  | cons a m ih => simp [List.replicate_succ, ih]
+
+/-- memberships of the copies: the prototype's, shifted by the prototype's number of groups -/
+theorem memb_copies (m : List Nat) (n : Nat) : ∀ cell,
+    List.zipWith (· + ·) (tile cell m) ((List.range cell).flatMap (fun c => List.replicate m.length (c * n)))
+      = copies cell (fun c => m.map (· + c * n))
+  | 0 => rfl
+  | c + 1 => by
+    rw [copies_succ, ← memb_copies m n c, tile_eq_copies, copies_succ, ← tile_eq_copies,
+      List.range_succ, List.flatMap_append]
+    simp only [List.flatMap_cons, List.flatMap_nil, List.append_nil]
+    rw [List.zipWith_append, zipWith_add_replicate]
+    rw [tile_eq_copies, copies_length (fun _ => m) m.length (fun _ => rfl)]
+    have : ∀ c, ((List.range c).flatMap (fun c => List.replicate m.length (c * n))).length = c * m.length := by
+      intro c
+      have := copies_length (fun c => List.replicate m.length (c * n)) m.length (fun _ => by simp) c
+      exact this
+    rw [this]
+
+/-- ids of the copies: the prototype's ids followed by the running index -/
+theorem ids_copies (ids : List String) : ∀ cell,
+    List.zipWith (fun id (k : Nat) => id ++ toString k) (tile cell ids) (List.range (cell * ids.length))
+      = copies cell (fun c => List.zipWith (fun id (i : Nat) => id ++ toString (c * ids.length + i)) ids
+          (List.range ids.length))
+  | 0 => by simp [copies, tile]
+  | c + 1 => by
+    rw [copies_succ, ← ids_copies ids c, tile_eq_copies, copies_succ, ← tile_eq_copies,
+      Nat.succ_mul, List.range_add, List.zipWith_append]
+    · congr 1
+      rw [List.zipWith_map_right]
+    · rw [tile_eq_copies, copies_length (fun _ => ids) ids.length (fun _ => rfl)]
+      simp
+
+
+/-! ## the class of the errors of the entity phase: never an ordinary exception -/
+
+theorem numOfText_error {s : String} {e : BErr} (h : numOfText s = .error e) : e ≠ .other := by
+  unfold numOfText at h
+  simp only at h
+  split at h
+  · split at h
+    · cases h; decide
+    · split at h
+      · cases h; decide
+      · split at h
+        · cases h; decide
+        · split at h
+          · cases h; decide
+          · split at h
+            · cases h
+            · cases h; decide
+  · split at h <;> (cases h; decide)
+
+theorem dateOfText_error {s : String} {e : BErr} (h : dateOfText s = .error e) : e ≠ .other := by
+  unfold dateOfText at h
+  simp only at h
+  repeat' split at h
+  all_goals first
+    | (cases h; done)
+    | (cases h; decide)
+
+theorem listAsScalar_error {xs : List Doc} {e : BErr} (h : listAsScalar xs = .error e) : e ≠ .other := by
+  unfold listAsScalar at h
+  split at h <;> (cases h; decide)
+
+theorem map_error {α β : Type} {x : R α} {f : α → β} {e : BErr} (h : x.map f = .error e) : x = .error e := by
+  cases x with
+  | error e' => simpa [Except.map] using h
+  | ok a => simp [Except.map] at h
+
+theorem checkSetValue_error {var : Var} {d : Doc} {e : BErr} (h : checkSetValue var d = .error e) :
+    e ≠ .other := by
+  unfold checkSetValue at h
+  split at h
+  all_goals first
+    | (cases h; done)
+    | (cases h; decide)
+    | exact numOfText_error (map_error h)
+    | exact dateOfText_error (map_error h)
+    | exact listAsScalar_error h
+    | (split at h <;> first | (cases h; done) | (cases h; decide))
+
+theorem valueWrite_error {var : Var} {size idx : Nat} {kv : DKey × Doc} {e : BErr}
+    (h : valueWrite var size idx kv = .error e) : e ≠ .other := by
+  unfold valueWrite at h
+  split at h
+  · cases h; decide
+  · split at h
+    · cases h
+    · split at h
+      · rename_i e' he; cases h; exact checkSetValue_error he
+      · cases h
+
+theorem variableWrites_error {sys : Sys} {entKey : String} {dp : Option String} {size idx : Nat}
+    {kv : DKey × Doc} {e : BErr} (h : variableWrites sys entKey dp size idx kv = .error e) : e ≠ .other := by
+  unfold variableWrites at h
+  split at h
+  · cases h; decide
+  · split at h
+    · cases h; decide
+    · split at h
+      · cases h; decide
+      · exact mapE_error _ (· ≠ .other) (fun x e' hx => valueWrite_error hx) _ _ (map_error h)
+
+theorem instanceWrites_error {sys : Sys} {entKey : String} {dp : Option String} {ids : List String}
+    {id : String} {vars : List (DKey × Doc)} {e : BErr}
+    (h : instanceWrites sys entKey dp ids id vars = .error e) : e ≠ .other := by
+  unfold instanceWrites at h
+  exact mapE_error _ (· ≠ .other) (fun x e' hx => variableWrites_error hx) _ _ (map_error h)
+
+theorem personInstance_error {sys : Sys} {dp : Option String} {ids : List String} {kv : DKey × Doc}
+    {e : BErr} (h : personInstance sys dp ids kv = .error e) : e ≠ .other := by
+  unfold personInstance at h
+  split at h
+  · cases h; decide
+  · exact instanceWrites_error h
+
+theorem addPersonEntity_error {sys : Sys} {dp : Option String} {d : Doc} {e : BErr}
+    (h : addPersonEntity sys dp d = .error e) : e ≠ .other := by
+  unfold addPersonEntity at h
+  split at h
+  · cases h; decide
+  · exact mapE_error _ (· ≠ .other) (fun x e' hx => personInstance_error hx) _ _ (map_error h)
+
+theorem allocOne_error {personsIds ta : List String} {d : Doc} {e : BErr}
+    (h : allocOne personsIds ta d = .error e) : e = .situation := by
+  unfold allocOne at h
+  split at h
+  · cases h; rfl
+  · split at h
+    · cases h; rfl
+    · split at h
+      · cases h; rfl
+      · cases h
+
+theorem allocRole_error {personsIds ta : List String} {rd : Role × Doc} {e : BErr}
+    (h : allocRole personsIds ta rd = .error e) : e = .situation := by
+  unfold allocRole at h
+  split at h
+  · cases h; rfl
+  · exact foldE_error _ (· = .situation) (fun s x e' hx => allocOne_error hx) _ _ _ h
+
+theorem groupStep_error {sys : Sys} {dp : Option String} {g : GroupKind} {personsIds gids : List String}
+    {acc : GAcc} {kv : DKey × Doc} {e : BErr} (h : groupStep sys dp g personsIds gids acc kv = .error e) :
+    e ≠ .other := by
+  unfold groupStep at h
+  cases ho : kv.2.asObj? with
+  | none => rw [ho] at h; cases h; decide
+  | some ikvs =>
+    rw [ho] at h
+    simp only at h
+    cases ha : foldE (allocRole personsIds) acc.toAlloc (roleDocs g ikvs) with
+    | error e' =>
+      rw [ha] at h
+      cases h
+      have := foldE_error _ (· = .situation) (fun s x e'' hx => allocRole_error hx) _ _ _ ha
+      rw [this]; decide
+    | ok ta =>
+      rw [ha] at h
+      simp only at h
+      by_cases hmax : (!(roleDocs g ikvs).all maxOk) = true
+      · rw [if_pos hmax] at h; cases h; decide
+      · rw [if_neg hmax] at h
+        cases hi : instanceWrites sys g.key dp gids kv.1.text (variablesJson g ikvs) with
+        | error e' => rw [hi] at h; cases h; exact instanceWrites_error hi
+        | ok ws => rw [hi] at h; cases h
+
+theorem addGroupEntity_error {sys : Sys} {dp : Option String} {g : GroupKind} {personsIds : List String}
+    {d : Doc} {buf : Buffer} {e : BErr} (hg : g.flatRoles ≠ [])
+    (h : addGroupEntity sys dp g personsIds d buf = .error e) : e ≠ .other := by
+  unfold addGroupEntity at h
+  split at h
+  · cases h; decide
+  · simp only at h
+    split at h
+    · rename_i e' he
+      cases h
+      exact foldE_error _ (· ≠ .other) (fun s x e'' hx => groupStep_error hx) _ _ _ he
+    · split at h
+      · cases h
+      · split at h
+        · rename_i hn
+          cases hf : g.flatRoles with
+          | nil => exact absurd hf hg
+          | cons a l => rw [hf] at hn; cases hn
+        · cases h
+
+theorem groupsStep_error {sys : Sys} {dp : Option String} {params : List (DKey × Doc)} {hasAxes : Bool}
+    {personsIds : List String} {st : BState} {g : GroupKind} {e : BErr} (hg : g.flatRoles ≠ [])
+    (h : groupsStep sys dp params hasAxes personsIds st g = .error e) : e ≠ .other := by
+  unfold groupsStep at h
+  split at h
+  · split at h
+    · rename_i e' he; cases h; exact addGroupEntity_error hg he
+    · cases h
+  · split at h
+    · cases h; decide
+    · unfold addDefaultGroupEntity at h
+      cases hf : g.flatRoles with
+      | nil => exact absurd hf hg
+      | cons a l => rw [hf] at h; simp at h
+
 end OFCore.Bld
